@@ -3,6 +3,7 @@
 from typing import Any, Tuple, Union
 
 import gtwrap.interface_parser as parser
+from gtwrap.interface_parser.namespace import find_sub_namespace
 import gtwrap.template_instantiator as instantiator
 
 
@@ -81,9 +82,15 @@ class CheckMixin:
     def is_global_enum(self, arg_type: parser.Type, class_: parser.Class):
         """Check if arg_type is a global enum."""
         if class_:
-            # Get the enums in the class' namespace
+            # Get the enums in the class' namespace. A namespace can be opened
+            # more than once (e.g. once per interface file), so look at every
+            # block of it.
+            namespace = class_.parent
+            blocks = find_sub_namespace(
+                namespace.top_level(),
+                [name for name in namespace.full_namespaces() if name != ''])
             global_enums = [
-                member.name for member in class_.parent.content
+                member.name for block in blocks for member in block.content
                 if isinstance(member, parser.Enum)
             ]
             return arg_type.typename.name in global_enums
